@@ -40,7 +40,9 @@ for name in sorted(os.listdir(sd)) if os.path.isdir(sd) else []:
     m = json.load(open(mp))
     caught = "; ".join("%s %s" % (k, v["status"] + ((" `" + re.search(r"key=(\S+)", v["first_violation"]).group(1) + "`") if v.get("first_violation") and re.search(r"key=(\S+)", v["first_violation"]) else "")) for k, v in sorted(m.get("checks", {}).items()))
     if m.get("not_caught_by_decision"):
-        caught += " - not claimed, see 7.11: " + m["not_caught_by_decision"][:160] + "..."
+        caught += " - not claimed (7.11/7.13): " + m["not_caught_by_decision"][:160] + "..."
+    if m.get("missed_because"):
+        caught += " - " + m["missed_because"][:200]
     out.append("| %s | %s | %s | %s |" % (name, m["property"], m.get("summary", "").replace("|", "/")[:300], caught))
 out.append("")
 p = os.path.join(VERIF, "DESIGN.md")
